@@ -53,9 +53,21 @@ func fields(h []hpack.HeaderField) []h2kit.Field {
 	return out
 }
 
-func playOps(e *h2kit.Endpoint, ops []op) error {
+// playOps writes the frames of one direction on stream 1. A DATA frame is written only when the
+// credit the relay has granted this sender (initial 65535 + WINDOW_UPDATEs, stream and connection)
+// covers it; the relay returns credit as it receives, so this never waits for the far side.
+func playOps(e *h2kit.Endpoint, ops []op, bound time.Duration) error {
+	sent := 0
 	for _, o := range ops {
 		var err error
+		if n := len(o.data); o.kind == 'D' && n > 0 {
+			if !e.Wait(bound, func(r *h2kit.Rec) bool {
+				return r.Done || (65535+int(r.WU[0])-sent >= n && 65535+int(r.WU[1])-sent >= n)
+			}) {
+				return fmt.Errorf("the relay did not grant credit for a %d-byte DATA frame after %d bytes within %v", n, sent, bound)
+			}
+			sent += n
+		}
 		if o.kind == 'H' {
 			_, err = e.WriteHeaders(h2kit.HeadersSpec{Stream: 1, Fields: fields(o.hdr), EndStream: o.end, Pad: -1})
 		} else {
@@ -173,7 +185,7 @@ func runRelayOnce(c Case, bound time.Duration) (v kit.Verdict, slow bool) {
 	if isGRPC(c.CT) {
 		c.C.Plain, c.S.Plain = false, false
 	}
-	c.C.AbortAt, c.S.AbortAt, c.SCT = 0, 0, ""
+	c.C.AbortAt, c.S.AbortAt, c.SCT, c.Info = 0, 0, "", 0
 	c.C, c.S = fitFrames(c.C), fitFrames(c.S)
 	if normEnd(c.C.End) == "absent" {
 		c.C.End = "last"
@@ -189,8 +201,22 @@ func runRelayOnce(c Case, bound time.Duration) (v kit.Verdict, slow bool) {
 	}
 	defer sess.Teardown(bound)
 	cl, sv := sess.Client, sess.Server
-	cl.SetAutoWU(true)
-	sv.SetAutoWU(true)
+	cl.SetAutoWU(!c.Late)
+	sv.SetAutoWU(!c.Late)
+	// Late: a receiver returns credit only when the relay has used up the initial window (or has
+	// nothing more to send): what the relay still holds then has to be cut at the window.
+	grantLate := func(e *h2kit.Endpoint, total int) {
+		if !c.Late {
+			return
+		}
+		want := min(total, 65535)
+		if !e.Wait(bound, func(r *h2kit.Rec) bool { return r.Done || r.DataBytes[1] >= want || streamOver(e)(r) }) {
+			slow = true
+		}
+		e.WriteWindowUpdate(0, 1<<20)
+		e.WriteWindowUpdate(1, 1<<20)
+		e.SetAutoWU(true)
+	}
 	cl.WritePreface()
 	cl.WriteSettings()
 	sv.WriteSettings()
@@ -201,17 +227,19 @@ func runRelayOnce(c Case, bound time.Duration) (v kit.Verdict, slow bool) {
 	bc, bs := build(c.C), build(c.S)
 	opsC, opsS := opsFor(c, "c", c.C, bc), opsFor(c, "s", c.S, bs)
 
-	if err := playOps(cl, opsC); err != nil {
-		return kit.Failf("C11/relay/setup/client-write-failed", "%v", err), false
+	if err := playOps(cl, opsC, bound); err != nil {
+		return kit.Failf("C11/relay/setup/client-write-failed", "%v", err), true
 	}
 	gotHeaders := func(r *h2kit.Rec) bool { return len(r.Streams[1]) > 0 || r.Done }
 	if !sv.Wait(bound, gotHeaders) {
 		v.Addf("C11/relay/request/request-headers-never-reached-the-server", "nothing of stream 1 reached the server within %v", bound)
 		return v, true
 	}
-	if err := playOps(sv, opsS); err != nil {
-		return kit.Failf("C11/relay/setup/server-write-failed", "%v", err), false
+	grantLate(sv, len(bc.stream))
+	if err := playOps(sv, opsS, bound); err != nil {
+		return kit.Failf("C11/relay/setup/server-write-failed", "%v", err), true
 	}
+	grantLate(cl, len(bs.stream))
 	for _, e := range []*h2kit.Endpoint{sv, cl} {
 		if !e.Wait(bound, streamOver(e)) {
 			slow = true
@@ -240,10 +268,17 @@ func runRelayOnce(c Case, bound time.Duration) (v kit.Verdict, slow bool) {
 // splitting of a re-prefixed message has its edges.
 var relaySizes = []int{16378, 16379, 16380, 32762, 32763, 32764, 8187, 16384, 11}
 
-func genRelayDir(t *rapid.T, label string, ends []string, plain bool) Dir {
+func genRelayDir(t *rapid.T, label string, ends []string, plain bool, late bool) Dir {
+	sizes, limit := relaySizes, 50000 // not late: stay inside the initial flow-control windows
+	if late {
+		sizes, limit = append(append([]int{}, relaySizes...), 65530, 65531, 65532, 49147, 20000, 20000, 60000), 150000
+	}
 	var d Dir
 	d.Enc = rapid.SampledFrom([]string{"", "identity", "gzip", "deflate", "snappy"}).Draw(t, label+"_enc")
 	n := rapid.IntRange(0, 3).Draw(t, label+"_nmsgs")
+	if late {
+		n = rapid.IntRange(1, 5).Draw(t, label+"_nmsgs_late")
+	}
 	total := 0
 	for i := 0; i < n; i++ {
 		var m Msg
@@ -253,12 +288,12 @@ func genRelayDir(t *rapid.T, label string, ends []string, plain bool) Dir {
 		case 3:
 			m.N = rapid.IntRange(301, 5000).Draw(t, "n")
 		default:
-			m.N = rapid.SampledFrom(relaySizes).Draw(t, "n")
+			m.N = rapid.SampledFrom(sizes).Draw(t, "n")
 		}
 		if plain && m.N >= 16378 {
 			m.N = rapid.SampledFrom([]int{16383, 16384, 16385, 32768}).Draw(t, "plain_n")
 		}
-		if total+m.N+5 > 50000 { // stay inside the initial flow-control windows: no credit protocol needed
+		if total+m.N+5 > limit {
 			break
 		}
 		total += m.N + 5
@@ -283,8 +318,10 @@ func genRelay(t *rapid.T) Case {
 	var c Case
 	c.CT = rapid.SampledFrom([]string{"application/grpc", "application/grpc", "application/grpc", "application/grpc+proto", "application/json"}).Draw(t, "ct")
 	plain := !isGRPC(c.CT)
-	c.C = genRelayDir(t, "c", []string{"last", "last", "separate"}, plain)
-	c.S = genRelayDir(t, "s", []string{"trailers", "trailers", "last", "separate"}, plain)
+	c.Late = rapid.IntRange(0, 2).Draw(t, "late") == 0
+	c.Copy = rapid.IntRange(0, 3).Draw(t, "copy") == 0
+	c.C = genRelayDir(t, "c", []string{"last", "last", "separate"}, plain, c.Late)
+	c.S = genRelayDir(t, "s", []string{"trailers", "trailers", "last", "separate"}, plain, c.Late)
 	return c
 }
 
@@ -310,6 +347,17 @@ func relayClasses(c Case) []string {
 	if exact {
 		out = append(out, "end-stream-on-message-filling-its-frames-exactly")
 	}
+	if c.Late {
+		out = append(out, "receiver-returns-credit-late")
+		for _, d := range []Dir{c.C, c.S} {
+			if b := build(d); len(b.stream) > 65535 {
+				out = append(out, "stream-exceeds-initial-window-of-late-receiver")
+				if b.end == "last" {
+					out = append(out, "end-stream-on-data-beyond-initial-window-of-late-receiver")
+				}
+			}
+		}
+	}
 	sort.Strings(out)
 	return out
 }
@@ -318,7 +366,7 @@ var propRelay = &kit.Prop[Case]{
 	ID: "C11", Name: "relay-end-to-end",
 	Rule: "one stream through h2.Config.Proxy (in-memory frame-level client, frame-level TLS server, AsStreamProcessorFactory(recording pass-through) as the only factory): request and response each 0..3 messages (payload 0..5000 or on/around k*16384-5 so that the re-prefixed message fills the relay's DATA frames exactly; at most 50000 bytes per direction), five encodings, drawn cuts (frames <= 16384), END_STREAM on the last DATA frame / a separate empty frame / trailers; 1 in 5 a JSON stream with plain body. The frames the two endpoints receive are judged by the reframe oracle (non-gRPC: bytes and END_STREAM, since the relay may re-split DATA). Non-trivial as for reframe.",
 	Gen:  genRelay, Run: runRelay, NonTrivial: nontrivial, Classes: relayClasses,
-	Gates: map[string]float64{"prefixed-message-is-multiple-of-max-frame-size": 0.1},
+	Gates: map[string]float64{"prefixed-message-is-multiple-of-max-frame-size": 0.1, "end-stream-on-data-beyond-initial-window-of-late-receiver": 0.08},
 }
 
 func TestRelayEndToEnd(t *testing.T) {
@@ -348,11 +396,26 @@ func relayEdges(yield func(Case) bool) {
 			return
 		}
 	}
+	// the frame with END_STREAM straddles the initial window of a receiver that returns credit late
+	for _, L := range []int{65535, 65536, 65537, 65535 + maxFrame, 100000} {
+		m := []Msg{{N: L - 5, Seed: uint64(L), Kind: "t"}}
+		for _, ends := range [][2]string{{"last", "last"}, {"separate", "trailers"}} {
+			if !yield(Case{CT: "application/grpc", Late: true, C: Dir{Msgs: m, End: ends[0]}, S: Dir{Msgs: m, End: ends[1]}}) {
+				return
+			}
+		}
+		p := []Msg{{N: L, Seed: uint64(L), Kind: "t"}}
+		if !yield(Case{CT: "application/json", Late: true, C: Dir{Msgs: p, End: "last", Plain: true}, S: Dir{Msgs: p, End: "last", Plain: true}}) {
+			return
+		}
+	}
+	four := []Msg{{N: 20000, Seed: 1, Kind: "t"}, {N: 20000, Seed: 2, Kind: "t"}, {N: 20000, Seed: 3, Kind: "t"}, {N: 10000, Seed: 4, Kind: "t"}}
+	yield(Case{CT: "application/grpc", Late: true, C: Dir{Msgs: four, Cuts: []int{20005, 40010, 60015}, End: "last"}, S: Dir{Enc: "gzip", Msgs: four, End: "last"}})
 }
 
 var propRelayEdges = &kit.Prop[Case]{
 	ID: "C11", Name: "relay-frame-size-edges",
-	Rule: "exhaustive over a fixed matrix: length-prefixed message of 16383, 16384, 16385, 32768, 49151 bytes (alone and behind a small message) x END_STREAM placements (last/last, separate/trailers, last/separate) in both directions through h2.Config.Proxy, plus JSON streams with plain bodies of those lengths (35 sessions). Non-trivial as for reframe.",
+	Rule: "exhaustive over a fixed matrix: length-prefixed message of 16383, 16384, 16385, 32768, 49151 bytes (alone and behind a small message) x END_STREAM placements (last/last, separate/trailers, last/separate) in both directions through h2.Config.Proxy, plus JSON streams with plain bodies of those lengths (51 sessions). Non-trivial as for reframe.",
 	Run:  runRelay, NonTrivial: nontrivial, Classes: relayClasses,
 }
 
